@@ -170,7 +170,8 @@ def judgeCase (_k : Nat) (lines : List String) : Verdict := Id.run do
     nontrivial := src.objs.length ≥ 2,
     fingerprint := fpLines (lines.filter fun l => l.startsWith "src " || l.startsWith "pre " || l.startsWith "mig " || l.startsWith "cfg "),
     stats := [("source_objects", src.objs.length), ("source_buckets", src.buckets.length), ("scenario_" ++ scenario, 1),
-              ("migrations_ok", if migOk then 1 else 0), ("migrations_refused", if migOk then 0 else 1),
+              ("migrations_ok", if migOk then 1 else 0),
+              ("destination_keys_" ++ ((lines.find? (fun l => l.startsWith "note destination-key-shape ")).map (fun l => ((tokens l).getLast?).getD "?")).getD "none", 1), ("migrations_refused", if migOk then 0 else 1),
               ("objects_with_class", has (·.cls.isSome)), ("objects_with_tags", has (!·.tags.isEmpty)),
               ("objects_with_expires", has (fun v => (mdGet v.md "!ex").isSome)),
               ("objects_with_user_metadata", has (fun v => v.md.any fun p => !p.1.startsWith "!")),
